@@ -394,55 +394,7 @@ def run(ctx: Ctx, rep: Report, tier: str) -> None:  # noqa: C901
             where(ports_fn),
         )
     # protocols: render table vs parse table
-    getter = ctx.func("Protocol.line.getter")
-    setter = ctx.func("Protocol.line.setter")
-    namer = ctx.func("Protocol.name.getter")
-    rtabs = [c for c in _const_names_used(ctx, getter) if isinstance(folder.try_const("protocol", c), dict)]
-    ntabs = [c for c in _const_names_used(ctx, namer) if isinstance(folder.try_const("protocol", c), dict)]
-    ptabs = [c for c in _const_names_used(ctx, setter) if isinstance(folder.try_const("protocol", c), dict)]
-    rep.require(bool(rtabs) and bool(ptabs) and bool(ntabs), "Protocol.line getter/setter no longer read a module-level table")
-    rep.instance()
-    for rt in sorted(set(rtabs + ntabs)):
-        R = folder.const("protocol", rt)
-        for pt in ptabs:
-            P = folder.const("protocol", pt)
-            per_plat = R if set(R) >= set(platforms) else {p: R for p in platforms}
-            for plat in platforms:
-                table = per_plat.get(plat)
-                if not isinstance(table, dict):
-                    rep.violation("Protocol.line.getter", f"{rt}[{plat!r}]", f"no render table for platform {plat}", where(getter))
-                    continue
-                for nr, name in table.items():
-                    if not isinstance(nr, int) or not isinstance(name, str):
-                        rep.violation(f"protocol.{rt}", f"{plat}: {nr!r}: {name!r}", "render table is not number->name", "cisco_acl/protocol.py")
-                        continue
-                    back = P.get(name) if isinstance(P, dict) else None
-                    if back != nr:
-                        rep.violation(
-                            f"protocol.{rt}",
-                            f"{plat}: {nr} -> {name!r} -> {back!r} via {pt}",
-                            f"protocol {nr} is rendered as {name!r} on {plat}, but the parser table {pt} reads {name!r} as {back!r}",
-                            "cisco_acl/protocol.py",
-                            inp=f'Protocol("{nr}", platform="{plat}").line re-parsed',
-                        )
-                    else:
-                        rep.ok(f"{rt}[{plat}][{nr}]={name!r} -> {pt}[{name!r}]=={nr}", "closure holds")
-    # every platform's name table is a sub-map of the parse table (a name accepted on one platform must not change number)
-    for tname, table in sorted(prot_tables.items()):
-        for pt in ptabs:
-            P = folder.const("protocol", pt)
-            if tname == pt:
-                continue
-            for name, nr in table.items():
-                if P.get(name) != nr:
-                    rep.violation(
-                        f"protocol.{tname}",
-                        f"{name!r}: {nr} vs {pt}[{name!r}]={P.get(name)!r}",
-                        f"name {name!r} is {nr} in {tname} but the parser's table {pt} maps it to {P.get(name)!r}",
-                        "cisco_acl/protocol.py",
-                    )
-                else:
-                    rep.ok(f"{tname}[{name!r}] agrees with {pt}", "same number")
+    setter = protocol_reader_writer(ctx, rep, prot_tables, platforms)
 
     # ---------------------------------------------------------------- R09.3 same table for reading and writing
     rep.rule("R09.3")
@@ -613,6 +565,68 @@ def run(ctx: Ctx, rep: Report, tier: str) -> None:  # noqa: C901
         tables=sorted(defined) + sorted(prot_tables),
         unverified_names=sorted(unverified),
     )
+
+
+def protocol_reader_writer(ctx: Ctx, rep: Report, prot_tables=None, platforms=None) -> Func:
+    """Every protocol name a platform's render table writes is read back to the same number by the table the reader
+    uses, and every platform's name table is a sub-map of the reader's table.  Returns the reader (Protocol.line setter)."""
+    folder = ctx.folder
+    if platforms is None:
+        platforms = folder.const("helpers", "PLATFORMS")
+    if prot_tables is None:
+        prot_tables = {k: v for k, v in folder.module_env(ctx.prog.module("protocol")).items() if isinstance(v, dict) and k.startswith("PROTOCOLS_")}
+        rep.require(len(prot_tables) >= 3, "protocol tables PROTOCOLS_* vanished")
+    getter = ctx.func("Protocol.line.getter")
+    setter = ctx.func("Protocol.line.setter")
+    namer = ctx.func("Protocol.name.getter")
+    rtabs = [c for c in _const_names_used(ctx, getter) if isinstance(folder.try_const("protocol", c), dict)]
+    ntabs = [c for c in _const_names_used(ctx, namer) if isinstance(folder.try_const("protocol", c), dict)]
+    ptabs = [c for c in _const_names_used(ctx, setter) if isinstance(folder.try_const("protocol", c), dict)]
+    rep.require(bool(rtabs) and bool(ptabs) and bool(ntabs), "Protocol.line getter/setter no longer read a module-level table")
+    rep.instance()
+    for rt in sorted(set(rtabs + ntabs)):
+        R = folder.const("protocol", rt)
+        for pt in ptabs:
+            P = folder.const("protocol", pt)
+            per_plat = R if set(R) >= set(platforms) else {p: R for p in platforms}
+            for plat in platforms:
+                table = per_plat.get(plat)
+                if not isinstance(table, dict):
+                    rep.violation("Protocol.line.getter", f"{rt}[{plat!r}]", f"no render table for platform {plat}", where(getter))
+                    continue
+                for nr, name in table.items():
+                    if not isinstance(nr, int) or not isinstance(name, str):
+                        rep.violation(f"protocol.{rt}", f"{plat}: {nr!r}: {name!r}", "render table is not number->name", "cisco_acl/protocol.py")
+                        continue
+                    back = P.get(name) if isinstance(P, dict) else None
+                    if back != nr:
+                        rep.violation(
+                            f"protocol.{rt}",
+                            f"{plat}: {nr} -> {name!r} -> {back!r} via {pt}",
+                            f"protocol {nr} is rendered as {name!r} on {plat}, but the parser table {pt} reads {name!r} as {back!r}",
+                            "cisco_acl/protocol.py",
+                            inp=f'Protocol("{nr}", platform="{plat}").line re-parsed',
+                        )
+                    else:
+                        rep.ok(f"{rt}[{plat}][{nr}]={name!r} -> {pt}[{name!r}]=={nr}", "closure holds")
+    # every platform's name table is a sub-map of the parse table (a name accepted on one platform must not change number)
+    for tname, table in sorted(prot_tables.items()):
+        for pt in ptabs:
+            P = folder.const("protocol", pt)
+            if tname == pt:
+                continue
+            for name, nr in table.items():
+                if P.get(name) != nr:
+                    rep.violation(
+                        f"protocol.{tname}",
+                        f"{name!r}: {nr} vs {pt}[{name!r}]={P.get(name)!r}",
+                        f"name {name!r} is {nr} in {tname} but the parser's table {pt} maps it to {P.get(name)!r}",
+                        "cisco_acl/protocol.py",
+                    )
+                else:
+                    rep.ok(f"{tname}[{name!r}] agrees with {pt}", "same number")
+
+    return setter
 
 
 def _token_gates(ctx: Ctx, rep: Report, funcs: List[Func], names: List[str]) -> None:
